@@ -522,54 +522,103 @@ def allStr : List JV → Bool
   | .str _ :: r => allStr r
   | _ :: _ => false
 
+def JV.isStr : JV → Bool | .str _ => true | _ => false
+
+/-- a type list in normal form: one string, or a list of at least two strings -/
+def normTypes : JV → Bool
+  | .str _ => true
+  | .arr (x :: y :: r) => allStr (x :: y :: r)
+  | _ => false
+
+def normAddProps (g : Shape → JV → Bool) : JV → Bool
+  | .bool _ => true
+  | .obj kvs => g (.ref "openapi3.SchemaRef") (.obj kvs)
+  | _ => false
+
+def normList (g : Shape → JV → Bool) (s : Shape) : JV → Bool
+  | .arr xs => xs.all (g s)
+  | _ => false
+
+/-- a map: distinct keys, no null entry, every entry in normal form -/
+def normEntries (g : Shape → JV → Bool) (s : Shape) : JV → Bool
+  | .obj kvs => (kvs.map (·.1)).Nodup && kvs.all (fun kv => !kv.2.isNull && g s kv.2)
+  | _ => false
+
+/-- a reference wrapper: either `$ref` (a non-empty string) alone, or the value -/
+def normRef (T : List Desc) (g : Shape → JV → Bool) (w : String) : JV → Bool
+  | .obj kvs =>
+    (match findDesc T w with
+     | none => false
+     | some d =>
+       if hasKey "$ref" kvs then (match kvs with | [(_, .str r)] => r != "" | _ => false)
+       else g d.valueShape (.obj kvs))
+  | _ => false
+
+def normMaplike (T : List Desc) (g : Shape → JV → Bool) (w : String) : JV → Bool
+  | .obj kvs =>
+    (match findDesc T w with
+     | none => false
+     | some d =>
+       (kvs.map (·.1)).Nodup && !hasKey "__origin__" kvs &&
+       kvs.all (fun kv => isExtKey kv.1 || (!kv.2.isNull && g (entryShapeOf d) kv.2)))
+  | _ => false
+
+def normKind (T : List Desc) (g : Shape → JV → Bool) (k : String) : JV → Bool
+  | .obj kvs =>
+    (match findDesc T k with
+     | none => false
+     | some d =>
+       match d.template with
+       | .alias => g d.valueShape (.obj kvs)
+       | .struct =>
+         normalObjB d kvs && !hasKey "__origin__" kvs &&
+         kvs.all (fun kv => match fieldByKey d kv.1 with
+                            | some f => g f.shape kv.2
+                            | none => true)
+       | _ => false)
+  | _ => false
+
+/-- one level of the deep normal form; `g` is the normal form one level down -/
+def normStep (T : List Desc) (g : Shape → JV → Bool) : Shape → JV → Bool
+  | .leaf, _ => true
+  | .strLeaf, v => v.isStr
+  | .unknown _, _ => false
+  | .types, v => normTypes v
+  | .addProps, v => normAddProps g v
+  | .list s, v => normList g s v
+  | .map s, v => normEntries g s v
+  | .pmap s, v => normEntries g s v
+  | .ref w, v => normRef T g w v
+  | .maplike w, v => normMaplike T g w v
+  | .kind k, v => normKind T g k v
+
+/-- deep normal form of a document of shape `s`: no redundant default, no sibling next to `$ref`, no null
+    entry, no duplicate key, required fields present — at every object the shape grammar reaches -/
 def normalB (T : List Desc) : Nat → Shape → JV → Bool
   | 0, _, _ => false
-  | n + 1, s, v =>
-    match s, v with
-    | .leaf, _ => true
-    | .strLeaf, .str _ => true
-    | .strLeaf, _ => false
-    | .unknown _, _ => false
-    | .types, .str _ => true
-    | .types, .arr (x :: y :: r) => allStr (x :: y :: r)
-    | .types, _ => false
-    | .addProps, .bool _ => true
-    | .addProps, .obj kvs => normalB T n (.ref "openapi3.SchemaRef") (.obj kvs)
-    | .addProps, _ => false
-    | .list s, .arr xs => xs.all (normalB T n s)
-    | .list _, _ => false
-    | .map s, .obj kvs => (kvs.map (·.1)).Nodup && kvs.all (fun kv => !kv.2.isNull && normalB T n s kv.2)
-    | .map _, _ => false
-    | .pmap s, .obj kvs => (kvs.map (·.1)).Nodup && kvs.all (fun kv => !kv.2.isNull && normalB T n s kv.2)
-    | .pmap _, _ => false
-    | .ref w, .obj kvs =>
-      (match findDesc T w with
-       | none => false
-       | some d =>
-         if hasKey "$ref" kvs then (match kvs with | [(_, .str r)] => r != "" | _ => false)
-         else normalB T n d.valueShape (.obj kvs))
-    | .ref _, _ => false
-    | .maplike w, .obj kvs =>
-      (match findDesc T w with
-       | none => false
-       | some d =>
-         let entryShape := match d.valueShape with | .map s => s | s => s
-         (kvs.map (·.1)).Nodup && !hasKey "__origin__" kvs &&
-         kvs.all (fun kv => isExtKey kv.1 || (!kv.2.isNull && normalB T n entryShape kv.2)))
-    | .maplike _, _ => false
-    | .kind k, .obj kvs =>
-      (match findDesc T k with
-       | none => false
-       | some d =>
-         match d.template with
-         | .alias => normalB T n d.valueShape (.obj kvs)
-         | .struct =>
-           normalObjB d kvs && !hasKey "__origin__" kvs &&
-           kvs.all (fun kv => match fieldByKey d kv.1 with
-                              | some f => normalB T n f.shape kv.2
-                              | none => true)
-         | _ => false)
-    | .kind _, _ => false
+  | n + 1, s, v => normStep T (normalB T n) s v
+
+/-! ### "the same JSON": equality up to the order of object members, at every depth -/
+
+mutual
+def JV.same : JV → JV → Prop
+  | .null, v1 => v1 = .null
+  | .bool b, v1 => v1 = .bool b
+  | .num m e, v1 => v1 = .num m e
+  | .str s, v1 => v1 = .str s
+  | .arr xs, v1 => v1 = .arr xs ∨ ∃ ys, v1 = .arr ys ∧ sameL xs ys
+  | .obj a, v1 => v1 = .obj a ∨
+      ∃ b, v1 = .obj b ∧ sameO a b ∧ (∀ k, (lookup k b).isSome = true → (lookup k a).isSome = true) ∧
+        (b.map (·.1)).Nodup
+/-- element by element -/
+def sameL : List JV → List JV → Prop
+  | [], ys => ys = []
+  | x :: xs, ys => ∃ y ys', ys = y :: ys' ∧ x.same y ∧ sameL xs ys'
+/-- every member of the first object is found in the second under its key, with the same value -/
+def sameO : List (String × JV) → Obj → Prop
+  | [], _ => True
+  | (k, x) :: r, b => (∃ y, lookup k b = some y ∧ x.same y) ∧ sameO r b
+end
 
 /-! ### canonical form for comparison (objects are Go maps: order is immaterial) -/
 
